@@ -913,7 +913,7 @@ def oracle_failing(ctx, case, wb, faults, scratch, stored, mode, pert, outs, rep
                 if through_failing:
                     unlisted(ctx, dict(case, variant='precedents-of-a-failing-cell', skipped=wb.nodes[x]['addr']),
                              what + " (reached only through another cell that raises)", impl=repr(listed)[:300])
-                    return
+                    break
                 ctx.violation(dict(case, variant='oracle', skipped=wb.nodes[x]['addr']), what, impl=repr(listed)[:300])
             if through_failing or not fails:
                 todo.extend(wb.nodes[x]['deps'])
